@@ -582,7 +582,7 @@ func init() {
 		Real: []string{"ha.FailoverController (handleHealthEvent, executeFailover, executeFailback, evaluateState control loop, ForceFailover/ForceFailback, both AfterFunc timers)",
 			"ha.HealthMonitor (monitorLoop, performCheck, thresholds, event emission)", "ha.HASyncer.handleHealth on the partner", "net/http.Client timeouts"},
 		Stub: []string{"network between the nodes (scn.vhNet)", "role-change callback (harness: ok / error / slow per case and tape)"},
-		Rule: "cases: 4-24 ops {partner down (partition: probes time out | crash: probes refused), up, sleep around threshold*interval, failover delay +-1 probe, grace, failback delay, lost probes, ForceFailover, ForceFailback, callback fail/slow} over default and varied Health/Failover configs, then a settle period; non-trivial = >=3 completed operations and (a fault fired or >2 context switches); distinct = distinct (case hash, schedule fingerprint)",
+		Rule: "cases: 4-24 ops {partner down (partition: probes time out | crash: probes refused), up, sleep around threshold*interval, failover delay +-1 probe, grace, failback delay, lost probes, ForceFailover, ForceFailback, callback fail/slow, and a motif promote -> partner recovers -> partner fails inside the failback grace} over default and varied Health/Failover configs, then a settle period; non-trivial = >=3 completed operations and (a fault fired or >2 context switches); distinct = distinct (case hash, schedule fingerprint)",
 		QuickRuns:    6000,
 		ThoroughRuns: 300000,
 		Assumptions: []string{"a promotion is forced when a ForceFailover call returned nil and the controller has not been observed at rest (role standby, state normal) since; only unforced promotions are held to the sustained-failure clause",
